@@ -1,5 +1,12 @@
 // native.cpp -- harness interface for the native build (real headers, real libstdc++, no model).
 // Nondeterministic values are replayed, in call order, from VERIF_REPLAY_VALUES (comma separated).
+#ifdef VF_SCHED
+#ifndef _GNU_SOURCE
+#define _GNU_SOURCE
+#endif
+#include <dlfcn.h>
+#include <pthread.h>
+#endif
 #include <cstdio>
 #include <cstdlib>
 #include <cstring>
@@ -39,6 +46,24 @@ unsigned char verif_nondet_uchar(void) { return (unsigned char)nextv(); }
 void verif_assume(int c) { if (!c) { std::printf("ASSUMPTION-VIOLATED\n"); std::fflush(stdout); std::_Exit(3); } }
 void verif_assert(int c, char const *id) { if (!c) { std::printf("ASSERTION FAILED: %s\n", id); std::fflush(stdout); std::_Exit(1); } }
 unsigned verif_lock_depth(void) { return 0; }
+#ifdef VF_SCHED
+// schedule points for C12/sched.cpp: interpose on the recursive mutex trompeloeil uses (the native run is single-threaded;
+// other mutexes -- libgcc's unwinder, libstdc++ internals -- are ordinary ones and are passed through untouched)
+void verif_on_acquire(void);
+static int nat_depth;
+int pthread_mutex_lock(pthread_mutex_t *m)
+{
+  static int (*real)(pthread_mutex_t *) = (int (*)(pthread_mutex_t *))dlsym(RTLD_NEXT, "pthread_mutex_lock");
+  if ((m->__data.__kind & 127) == PTHREAD_MUTEX_RECURSIVE_NP) { if (nat_depth == 0) verif_on_acquire(); ++nat_depth; }
+  return real(m);
+}
+int pthread_mutex_unlock(pthread_mutex_t *m)
+{
+  static int (*real)(pthread_mutex_t *) = (int (*)(pthread_mutex_t *))dlsym(RTLD_NEXT, "pthread_mutex_unlock");
+  if ((m->__data.__kind & 127) == PTHREAD_MUTEX_RECURSIVE_NP) --nat_depth;
+  return real(m);
+}
+#endif
 void verif_reach(void) { std::printf("REACHED\n"); }
 int verif_str_eq(char const *a, char const *b) { return a == b || (a && b && std::strcmp(a, b) == 0); }
 int verif_msg_has(char const *hay, char const *needle) { return hay && needle && std::strstr(hay, needle) != nullptr; }
